@@ -105,8 +105,13 @@ class Interp:
         self.defects = []      # (kind, node, text)
         self.log_calls = 0
         self.divisions = 0
+        self.alloc_depth = {}
 
     # -- helpers ----------------------------------------------------------
+    def is_identity_helper(self, fname):
+        from .props.kernel_rules import elementwise_equality_helper
+        return elementwise_equality_helper(self.m.funcs.get(fname))
+
     def lib(self, e):
         return self.m.dotted(e)
 
@@ -176,6 +181,19 @@ class Interp:
             return K('binop', type(e.op).__name__, l, r)
         if isinstance(e, ast.Call):
             return self.call(e, env)
+        if isinstance(e, (ast.ListComp, ast.GeneratorExp)) and len(e.generators) == 1 and not e.generators[0].ifs and isinstance(e.generators[0].target, ast.Name):
+            # [count(sub == c) for c in class_values]: the per-class joint counts of a stratum, built in one expression
+            it = self.ev(e.generators[0].iter, env)
+            if it[0] == 'vals':
+                dom = K('idx', it)
+                inner = dict(env)
+                inner[e.generators[0].target.id] = K('val', it[1], dom)
+                v = self.ev(e.elt, inner)
+                if v[0] == 'jcnt' and v[2] == dom:
+                    return K('jarr', v[1], v[3], v[4], v[5])
+                if v[0] == 'cnt' and v[2] == dom:
+                    return K('cnts', v[1])
+            raise Unknown(f'comprehension {ast.unparse(e)[:60]}', e)
         raise Unknown(f'expression {ast.unparse(e)[:60]}', e)
 
     def index(self, base, idx, node):
@@ -197,6 +215,21 @@ class Interp:
             return K('rowpos', base[1], base[2])
         if base[0] == 'vec' and idx[0] in ('rows', 'rowpos'):
             return K('sub', base[1], idx[1], idx[2], False)
+        if base[0] == 'vec' and idx[0] == 'mod' and any(isinstance(x, tuple) and x and x[0] == 'rowpos' for x in _walk(idx)):
+            # vectorised displaced read  Y[(Rows(B=i) + Cnt(B=i)) % len(Y)] : one element per row of the stratum by construction
+            m = idx
+            stratum = None
+            if m[2] == K('n',) and m[1][0] == 'sum' and len(m[1][1]) == 2:
+                rp = [x for x in m[1][1] if x[0] == 'rowpos']
+                cn = [x for x in m[1][1] if x[0] == 'cnt']
+                if len(rp) == 1 and len(cn) == 1 and (rp[0][1], rp[0][2]) == (cn[0][1], cn[0][2]):
+                    stratum = (rp[0][1], rp[0][2])
+            if stratum is None:
+                self.defect('baddisp', node, f'the displaced index must be (rows of the stratum + size of the stratum) mod len(Y); found index {render(m)}')
+                rp_all = [x for x in _walk(m) if isinstance(x, tuple) and x and x[0] == 'rowpos']
+                stratum = (rp_all[0][1], rp_all[0][2])
+            elem = K('mod', K('sum', (K('rowelem', stratum[0], stratum[1]), K('cnt', stratum[0], stratum[1]))), K('n',))
+            return K('disp', K('dispread', base[1], elem), stratum[0], stratum[1])
         if base[0] == 'vec' and idx[0] == 'mod':
             return K('dispread', base[1], idx)
         if base[0] == 'vec' and idx[0] in ('rowelem', 'sum'):
@@ -332,6 +365,8 @@ class Interp:
             return K('flag', False)
         if d == 'numpy.zeros':
             return K('zeros', args[0])
+        if d == 'numpy.empty':
+            return K('zeros', args[0], 'uninitialised')
         if d in ('numpy.min', 'numpy.max') and len(args) == 1 and args[0][0] == 'sub':
             return K('extreme', name, args[0])
         if d == 'numpy.unique' and len(args) == 1 and args[0][0] == 'sub':
@@ -350,8 +385,14 @@ class Interp:
             return self.ev(e.func.value, env)
         if d in ('numpy.float32', 'numpy.float64', 'float', 'numpy.int32', 'int', 'numpy.uint32') and len(args) == 1:
             return args[0]
+        if d in ('numpy.remainder', 'numpy.mod') and len(args) == 2:
+            return K('mod', args[0], args[1])
+        if d in ('numpy.array', 'numpy.asarray') and len(args) == 1 and args[0][0] in ('jarr', 'cnts', 'vals'):
+            return args[0]
         fname = d.split('.')[-1]
         if d.startswith(self.m.name + '.') and fname in self.funcs:
+            if len(args) == 2 and {args[0][0], args[1][0]} == {'vec'} and args[0][1] != args[1][1] and self.is_identity_helper(fname):
+                return K('flag', False)      # a verified element-wise identity predicate, on the path of a non-identical pair
             return self.run(fname, args, e)
         raise Unknown(f'call {ast.unparse(e.func)}(...)', e)
 
@@ -413,6 +454,10 @@ class Interp:
                 val = self.ev(s.value, env)
                 name = ast.unparse(t.value)
                 dom = st['domains'][-1] if st['domains'] else None
+                if base[0] == 'zeros' and len(base) > 2 and len(st['guards']) > (base[2] if isinstance(base[2], int) else 0):
+                    raise Unknown('conditional store into an uninitialised (np.empty) buffer', s)
+                if base[0] == 'zeros' and st.get('loops'):
+                    st['loops'][-1]['stores'].append(name)
                 if base[0] == 'zeros' and val[0] == 'jcnt':
                     if idx != val[2] or dom != idx:
                         self.defect('badstore', s, f'joint count for class {render(val[2])} stored at slot {render(idx)}')
@@ -432,6 +477,10 @@ class Interp:
                     return
                 raise Unknown(f'store {name}[{render(idx)}] = {render(val)}', s)
             val = self.ev(s.value, env)
+            if val[0] == 'zeros' and len(val) > 2:
+                val = K('zeros', val[1], len(st['guards']))       # np.empty: remember the guard depth of the allocation
+            if val[0] == 'zeros' and isinstance(t, ast.Name):
+                self.alloc_depth[t.id] = len(st['domains'])
             if isinstance(t, ast.Tuple):
                 if val[0] != 'tuple' or len(val) - 1 != len(t.elts):
                     raise Unknown(f'unpacking {ast.unparse(s)[:60]}', s)
@@ -455,6 +504,9 @@ class Interp:
                 return
             if not isinstance(s.op, (ast.Add, ast.Sub)):
                 raise Unknown(f'augmented operator in {ast.unparse(s)[:60]}', s)
+            if cur[0] in ('cnt', 'jcnt', 'intvar') and val[0] in ('cnt', 'jcnt', 'intvar', 'const'):
+                env[tgt] = K('intvar', tgt)        # integer bookkeeping (rows left, ...): never part of a probability
+                return
             sign = 1 if isinstance(s.op, ast.Add) else -1
             prev = list(cur[1]) if cur[0] == 'red' else ([] if cur in ZERO else None)
             if prev is None and cur[0] == 'const' and isinstance(cur[1], (int, float)):
@@ -504,6 +556,7 @@ class Interp:
                 raise Unknown(f'loop over {render(it)}', s)
             st['domains'].append(dom)
             g0 = len(st['guards'])
+            st.setdefault('loops', []).append({'stores': [], 'broken': None})
             for b in s.body:
                 if isinstance(b, ast.AugAssign) and isinstance(b.target, ast.Name) and b.target.id in manual:
                     # manual enumerate: must be unconditional, at the top level of the body
@@ -522,6 +575,13 @@ class Interp:
                         self.defect('badindex', b, f'a skipped iteration does not advance the manual index {n}: later classes read the wrong count')
             del st['guards'][g0:]
             st['domains'].pop()
+            rec = st['loops'].pop()
+            if rec['broken'] is not None and rec['stores']:
+                hoisted = [n for n in rec['stores'] if self.alloc_depth.get(n, 0) < len(st['domains'])]
+                if hoisted:
+                    self.defect('badstore', rec['broken'], f'the loop that fills `{hoisted[0]}` can be left early, and `{hoisted[0]}` is allocated outside the enclosing loop: the slots that are not rewritten keep the counts of the previous stratum')
+                else:
+                    raise Unknown('a break leaves slots of a per-stratum count buffer unwritten', rec['broken'])
             for n, v in env.pop('__pending__', {}).items():
                 env[n] = v
             return
@@ -538,6 +598,9 @@ class Interp:
                 return
             if len(s.body) == 1 and isinstance(s.body[0], ast.Continue) and not s.orelse:
                 st['guards'].append(K('skip', c))
+                return
+            if len(s.body) == 1 and isinstance(s.body[0], ast.Break) and not s.orelse and st.get('loops'):
+                st['loops'][-1]['broken'] = s
                 return
             if any(isinstance(x, (ast.Continue, ast.Break, ast.Return)) for b in s.body + s.orelse for x in ast.walk(b)):
                 raise Unknown('early exit inside a guarded block', s)
